@@ -22,6 +22,7 @@ type Path struct {
 	Fn     *ssa.Function
 	Blocks []*ssa.BasicBlock
 	Atoms  []Atom
+	AtomAt []int // index into Blocks of the branching block of each atom
 	Evs    []Ev
 	Ret    *ssa.Return // nil when the path ends in a panic or loops back
 	End    string      // "return", "panic", "loop"
@@ -46,6 +47,7 @@ func (p *Prog) Paths(fn *ssa.Function) (paths []*Path, complete bool) {
 		onPath map[*ssa.BasicBlock]bool
 		pred   map[*ssa.BasicBlock]*ssa.BasicBlock
 		atoms  []Atom
+		atomAt []int
 		keys   map[string]bool // identity keys → polarity
 		evs    []Ev
 		defers []Ev
@@ -73,7 +75,7 @@ func (p *Prog) Paths(fn *ssa.Function) (paths []*Path, complete bool) {
 			complete = false
 			return
 		}
-		pt := &Path{Fn: fn, Blocks: append([]*ssa.BasicBlock{}, st.blocks...), Atoms: append([]Atom{}, st.atoms...),
+		pt := &Path{Fn: fn, Blocks: append([]*ssa.BasicBlock{}, st.blocks...), Atoms: append([]Atom{}, st.atoms...), AtomAt: append([]int{}, st.atomAt...),
 			Evs: append([]Ev{}, st.evs...), Ret: ret, End: end}
 		pt.pred = map[*ssa.BasicBlock]*ssa.BasicBlock{}
 		for k, v := range st.pred {
@@ -141,6 +143,7 @@ func (p *Prog) Paths(fn *ssa.Function) (paths []*Path, complete bool) {
 					st.keys[key.S] = key.Pol
 					disp := mkD(st, false).NormAtom(x.Cond, pol)
 					st.atoms = append(st.atoms, disp)
+					st.atomAt = append(st.atomAt, len(st.blocks)-1)
 					oldPred, hadPred := st.pred[succ]
 					st.pred[succ] = b
 					rec(st, succ)
@@ -150,6 +153,7 @@ func (p *Prog) Paths(fn *ssa.Function) (paths []*Path, complete bool) {
 						delete(st.pred, succ)
 					}
 					st.atoms = st.atoms[:len(st.atoms)-1]
+					st.atomAt = st.atomAt[:len(st.atomAt)-1]
 					if !had {
 						delete(st.keys, key.S)
 					}
@@ -276,4 +280,31 @@ func (pt *Path) PassesThrough(b *ssa.BasicBlock) bool {
 		}
 	}
 	return false
+}
+
+// AtomsBefore returns the atoms assumed on the path before control reached
+// the block of ins.
+func (pt *Path) AtomsBefore(ins ssa.Instruction) []Atom {
+	idx := -1
+	for i, b := range pt.Blocks {
+		if b == ins.Block() {
+			idx = i
+			break
+		}
+	}
+	if idx < 0 {
+		return nil
+	}
+	var out []Atom
+	for i, a := range pt.Atoms {
+		if pt.AtomAt[i] < idx {
+			out = append(out, a)
+		}
+	}
+	return out
+}
+
+// HasBefore reports whether atom was assumed before reaching ins.
+func (pt *Path) HasBefore(ins ssa.Instruction, atom string) bool {
+	return HasAtom(pt.AtomsBefore(ins), ParseAtom(atom))
 }
